@@ -18,6 +18,7 @@ def main():
                 "pkg/registry/boundedfetch/*.go", "pkg/foundation/atomicfile/*.go"]:
         files += glob.glob(os.path.join(REPO, pat))
     n = 0
+    nsync = 0
     skipped = []
     for p in sorted(files):
         base = os.path.basename(p)
@@ -25,6 +26,10 @@ def main():
             continue
         src = open(p).read()
         new, k = re.subn(r"\bos\.(%s)\(" % FUNCS, r"simfs.\1(", src)
+        # f.Sync() on an *os.File: an operation of its own (power-loss model: what is durable)
+        new, ks = re.subn(r"\b([A-Za-z_][A-Za-z0-9_]*)\.Sync\(\)", r"simfs.Sync(\1)", new)
+        k += ks
+        nsync += ks
         if p.endswith("pkg/registry/lock.go"):
             # the wait for a contended install lock goes behind the simulator's seam
             new, kl = re.subn(r"fl\.TryLockContext\(ctx, lockPollInterval\)", "simfs.TryLockContext(ctx, fl.TryLock, path, lockPollInterval)", new)
@@ -53,7 +58,7 @@ def main():
     open(q, "w").write(open(os.path.join(os.path.dirname(os.path.dirname(os.path.abspath(__file__))), "registrysim", "simfs.go.txt")).read())
     replace[os.path.join(REPO, "pkg/foundation/simfs/simfs.go")] = q
     json.dump({"Replace": replace}, open(os.path.join(OUT, "overlay.json"), "w"), indent=1)
-    json.dump({"rewritten_calls": n, "files": len(replace) - 1, "skipped": skipped}, open(os.path.join(OUT, "stats.json"), "w"))
+    json.dump({"sync_calls": nsync, "rewritten_calls": n, "files": len(replace) - 1, "skipped": skipped}, open(os.path.join(OUT, "stats.json"), "w"))
     print("overlay19: %d calls in %d files redirected; skipped %s" % (n, len(replace) - 1, skipped))
 
 main()
